@@ -34,9 +34,37 @@ func decodeDoc(text, num string) (any, error) {
 	}
 	var v any
 	if err := dec.Decode(&v); err != nil {
+		if num != "number" {
+			// a number outside the double range exists as json.Number only: decode in number mode and
+			// convert every representable number to float64
+			d2 := json.NewDecoder(strings.NewReader(text))
+			d2.UseNumber()
+			if err2 := d2.Decode(&v); err2 == nil {
+				return floatsWherePossible(v), nil
+			}
+		}
 		return nil, err
 	}
 	return v, nil
+}
+
+func floatsWherePossible(v any) any {
+	switch x := v.(type) {
+	case json.Number:
+		if f, err := strconv.ParseFloat(string(x), 64); err == nil {
+			return f
+		}
+		return x
+	case []any:
+		for i := range x {
+			x[i] = floatsWherePossible(x[i])
+		}
+	case map[string]any:
+		for k := range x {
+			x[k] = floatsWherePossible(x[k])
+		}
+	}
+	return v
 }
 
 func mustDoc(text, num string) any {
